@@ -6,6 +6,7 @@ import (
 
 	"golang.org/x/tools/go/ssa"
 
+	"gosym/smt"
 	"gosym/term"
 )
 
@@ -297,6 +298,12 @@ func (e *Engine) allocSize(g *Goroutine, n *term.T, elemCells int, what string) 
 	limit := e.p.maxAlloc / int64(elemCells)
 	if !e.Branch(e.tb.Cmp(term.KUle, n, e.c64(limit))) {
 		if e.p.allocViol {
+			// prefer a clearly oversized witness so that the native replay can measure it
+			big := e.tb.Cmp(term.KUle, e.c64(1<<24), n)
+			if e.query(big) == smt.Sat {
+				e.solver.Push()
+				e.solver.Assert(big)
+			}
 			e.recordViolation("alloc", "oversized-allocation", e.siteOf(g.top),
 				fmt.Sprintf("allocation of more than %d elements (%s) reachable", limit, what), nil)
 			e.abort("violation", "alloc")
